@@ -379,9 +379,17 @@ def run(rep, tier, seed):
     rep.cov["evaluations"] = nT
     # large instances: chains deeper and fans wider than any bounded model, copied at several nodes; TLC judges (Steps!CopyF)
     traces = []
-    for shape, size in (("chain", 70), ("chain", 150), ("chain", 300), ("fan", 400), ("comb", 120)):
+    for shape, size in (("chain", 70), ("chain", 150), ("chain", 300), ("fan", 400), ("comb", 120), ("bush", 1 + 13 + 13 * 12), ("bush", 1 + 25 + 25 * 3)):
         kids = [[] for _ in range(size)]
+        if shape == "bush":          # a root with many children, each with several children of its own (positions with two digits at two levels)
+            width = 13 if size == 1 + 13 + 13 * 12 else 25
+            per = (size - 1 - width) // width
+            for c in range(width):
+                kids[0].append(2 + c)
+                kids[1 + c] = [2 + width + c * per + j for j in range(per)]
         for i in range(2, size + 1):
+            if shape == "bush":
+                break
             par = i - 1 if shape == "chain" else (1 if shape == "fan" else (i - 2 if i % 2 == 1 and i > 2 else i - 1))
             kids[par - 1].append(i)
         st = {"name": ["a" if i % 3 else "b" for i in range(size)], "kids": kids}
